@@ -31,6 +31,8 @@ pub enum Guard { None, VarCmp(u8, u8, u8), VarVar(u8) }
 pub enum MPat {
   Lit(u8), Var, Tuple(Vec<Pat>),
   ArrEmpty, ArrHead, ArrLast,
+  /// `[x … y]` (first and last; needs two elements), `[a, b … c]` (needs three), `[x]` (exactly one), `[a | r]` (head and rest)
+  ArrEnds, ArrTwoLast, ArrOne, ArrHeadRest,
   /// enum variant index, payload pattern (None for payload-free variants)
   Variant(u8, Option<Pat>),
 }
@@ -78,7 +80,7 @@ impl Prop for C16 {
       let pat: BoxedStrategy<MPat> = match &val {
         MVal::Scalar(_) => prop_oneof![3 => (0u8..5).prop_map(MPat::Lit), 3 => Just(MPat::Var)].boxed(),
         MVal::Tuple(..) => proptest::collection::vec(pat_s(), 2).prop_map(MPat::Tuple).boxed(),
-        MVal::Vector(_) => prop_oneof![Just(MPat::ArrHead), Just(MPat::ArrLast), Just(MPat::ArrEmpty)].boxed(),
+        MVal::Vector(_) => prop_oneof![1 => Just(MPat::ArrHead), 1 => Just(MPat::ArrLast), 1 => Just(MPat::ArrEmpty), 2 => Just(MPat::ArrEnds), 2 => Just(MPat::ArrTwoLast), 1 => Just(MPat::ArrOne), 1 => Just(MPat::ArrHeadRest)].boxed(),
         MVal::Enum { with_payload, .. } => { let wp = *with_payload; (0u8..3, pat_s()).prop_map(move |(v, p)| MPat::Variant(v, if wp { Some(p) } else { None })).boxed() }
       };
       (proptest::collection::vec((pat, guard_s(), prop_oneof![2 => Just(Body::Const), 2 => (0u8..2).prop_map(Body::Var), 1 => Just(Body::Sum)]).prop_map(|(pat, guard, body)| MArm { pat, guard, body }), 1..=5), proptest::bool::weighted(0.85), any::<bool>())
@@ -233,6 +235,10 @@ fn mpat_text(p: &MPat, arm: usize, shared: bool) -> (String, Vec<Option<String>>
     MPat::ArrEmpty => ("[]".into(), vec![]),
     MPat::ArrHead => { let n = nm("h", 0); (format!("[{} ...]", n), vec![Some(n)]) }
     MPat::ArrLast => { let n = nm("l", 0); (format!("[... {}]", n), vec![Some(n)]) }
+    MPat::ArrEnds => { let (a, b) = (nm("w", 0), nm("w", 1)); (format!("[{} … {}]", a, b), vec![Some(a), Some(b)]) }
+    MPat::ArrTwoLast => { let (a, b, c) = (nm("w", 0), nm("w", 1), if shared { "r".to_string() } else { nm("w", 2) }); (format!("[{}, {} … {}]", a, b, c), vec![Some(a), Some(b), Some(c)]) }
+    MPat::ArrOne => { let a = nm("w", 0); (format!("[{}]", a), vec![Some(a)]) }
+    MPat::ArrHeadRest => { let a = nm("w", 0); (format!("[{} | rest{}]", a, arm), vec![Some(a)]) }
     MPat::Variant(v, None) => (format!(":{}", VARIANTS[*v as usize % 3]), vec![]),
     MPat::Variant(v, Some(q)) => { let n = if shared { nm("w", 0) } else { format!("w{}", arm) }; (format!(":{}({})", VARIANTS[*v as usize % 3], pat_text(q, &n)), vec![if *q == Pat::Var { Some(n) } else { None }]) }
   }
@@ -257,6 +263,10 @@ fn match_eval(val: &MVal, arms: &[MArm]) -> MatchModel {
       (MPat::ArrEmpty, MVal::Vector(v)) => if v.is_empty() { Some(vec![]) } else { None },
       (MPat::ArrHead, MVal::Vector(v)) => v.first().map(|h| vec![Some(*h as f64)]),
       (MPat::ArrLast, MVal::Vector(v)) => v.last().map(|l| vec![Some(*l as f64)]),
+      (MPat::ArrEnds, MVal::Vector(v)) => if v.len() >= 2 { Some(vec![Some(v[0] as f64), Some(v[v.len() - 1] as f64)]) } else { None },
+      (MPat::ArrTwoLast, MVal::Vector(v)) => if v.len() >= 3 { Some(vec![Some(v[0] as f64), Some(v[1] as f64), Some(v[v.len() - 1] as f64)]) } else { None },
+      (MPat::ArrOne, MVal::Vector(v)) => if v.len() == 1 { Some(vec![Some(v[0] as f64)]) } else { None },
+      (MPat::ArrHeadRest, MVal::Vector(v)) => v.first().map(|h| vec![Some(*h as f64)]),
       (MPat::Variant(pv, pp), MVal::Enum { variant, payload, .. }) => {
         if pv % 3 != variant % 3 { None } else { match (pp, payload) { (None, _) => Some(vec![]), (Some(Pat::Lit(k)), Some(p)) => if k == p { Some(vec![None]) } else { None }, (Some(Pat::Var), Some(p)) => Some(vec![Some(*p as f64)]), (Some(Pat::Wild), Some(_)) => Some(vec![None]), (Some(_), None) => None } }
       }
@@ -357,7 +367,7 @@ fn check(c: &Case) -> Verdict {
       let mm = match_eval(val, arms);
       let vc = match val { MVal::Scalar(_) => "scalar", MVal::Tuple(..) => "tuple", MVal::Vector(_) => "vector", MVal::Enum { with_payload: true, .. } => "enum-payload", MVal::Enum { .. } => "enum" };
       v.label(format!("match-on:{}", vc));
-      let pc: Vec<String> = arms.iter().map(|a| format!("{}{}", match &a.pat { MPat::Lit(_) => "L", MPat::Var => "V", MPat::Tuple(_) => "T", MPat::ArrEmpty => "E", MPat::ArrHead => "H", MPat::ArrLast => "Z", MPat::Variant(_, None) => "v", MPat::Variant(..) => "p" }, if a.guard == Guard::None { "" } else { "g" })).collect();
+      let pc: Vec<String> = arms.iter().map(|a| format!("{}{}", match &a.pat { MPat::Lit(_) => "L", MPat::Var => "V", MPat::Tuple(_) => "T", MPat::ArrEmpty => "E", MPat::ArrHead => "H", MPat::ArrLast => "Z", MPat::ArrEnds => "N", MPat::ArrTwoLast => "W", MPat::ArrOne => "O", MPat::ArrHeadRest => "R", MPat::Variant(_, None) => "v", MPat::Variant(..) => "p" }, if a.guard == Guard::None { "" } else { "g" })).collect();
       if mm.matching >= 2 || mm.guard_false_on_match { v.key = Some(format!("match|{}|{}|sel{:?}|{}", vc, pc.join(","), mm.selected, wildcard)); }
       // exhaustiveness: without `*`, the match is legal only if an enum is fully covered by guard-free, payload-insensitive arms
       // without `*`, the match is legal when every variant of the enum is named by some arm (variant-level coverage,
